@@ -5411,6 +5411,10 @@ impl GraphEngine {
                 });
             } else if let Some(parent_list) = parents.get(&current) {
                 for (parent, edge_id) in parent_list {
+                    // Zero-weight edges can make equal-cost parent lists cyclic: list simple paths only
+                    if nodes.contains(parent) {
+                        continue;
+                    }
                     let mut new_nodes = nodes.clone();
                     new_nodes.push(*parent);
                     let mut new_edges = edges.clone();
